@@ -40,7 +40,8 @@ def pairs : List Val → List (Val × Val)
   | _ => []
 
 mutual
-  /-- decode one item; `fuel` bounds nesting + total items (input length + 1 suffices) -/
+  /-- decode one item; `fuel` bounds nesting + number of items (2·input length + 2 suffices: every item
+      takes at least one byte and every list element costs one unit more than its predecessor) -/
   def decode : Nat → Bytes → Option (Val × Bytes)
     | 0, _ => none
     | _, [] => none
@@ -89,13 +90,13 @@ end
 
 /-- the whole input is exactly one item -/
 def decodeAll (b : Bytes) : Option Val :=
-  match decode (b.length + 1) b with
+  match decode (2 * b.length + 2) b with
   | some (v, []) => some v
   | _ => none
 
 /-- the first item of the input (what a streaming decoder that ignores trailing bytes sees), and whether bytes remain -/
 def decodeFirst (b : Bytes) : Option (Val × Bool) :=
-  match decode (b.length + 1) b with
+  match decode (2 * b.length + 2) b with
   | some (v, rest) => some (v, !rest.isEmpty)
   | none => none
 
